@@ -108,7 +108,7 @@ def _knill(iso, log_lines, log_cols):
 
     unitary = _extend_to_unitary(iso, log_lines, log_cols)
 
-    eigval, eigvec = np.linalg.eig(unitary)
+    eigval, eigvec = _orthonormal_eig(unitary)
     arg = np.angle(eigval)
 
     reg = QuantumRegister(log_lines)
@@ -132,6 +132,17 @@ def _knill(iso, log_lines, log_cols):
             circuit.compose(gate, reg, inplace=True)
 
     return circuit
+
+
+def _orthonormal_eig(unitary):
+    """
+    Eigendecomposition of a unitary (hence normal) matrix with an orthonormal
+    eigenbasis. The complex Schur form of a normal matrix is diagonal and its
+    Schur vectors are orthonormal even when eigenvalues are repeated, which
+    `np.linalg.eig` does not guarantee.
+    """
+    schur_form, schur_vectors = scipy.linalg.schur(unitary, output="complex")
+    return np.diag(schur_form), schur_vectors
 
 
 def _extend_to_unitary(iso, log_lines, log_cols):
@@ -377,7 +388,7 @@ def _cnot_count_estimate_knill(iso, log_lines, log_cols):
     """
     unitary = _extend_to_unitary(iso, log_lines, log_cols)
 
-    eigval, eigvec = np.linalg.eig(unitary)
+    eigval, eigvec = _orthonormal_eig(unitary)
     arg = np.angle(eigval)
 
     # pylint: disable=import-outside-toplevel
